@@ -135,6 +135,28 @@ func c16EvalCheck(t testing.TB, stmt string) (why, skip string) {
 	return "", ""
 }
 
+// genMultiLine is a statement holding a string or array literal that spans
+// several lines, with empty and blank lines, braces and comment starts inside.
+func genMultiLine(t *rapid.T) string {
+	n := rapid.IntRange(2, 5).Draw(t, "lines")
+	lines := []string{}
+	for i := 0; i < n; i++ {
+		lines = append(lines, rapid.SampledFrom([]string{"", "", " ", "x", "; c", "{", "}", "[", "a b", "]", "  y", "\\\""}).Draw(t, "line"))
+	}
+	body := strings.Join(lines, "\n")
+	switch rapid.IntRange(0, 3).Draw(t, "form") {
+	case 0:
+		return "write(\"<\" + \"" + body + "\" + \">\")"
+	case 1:
+		return "zml = \"" + body + "\""
+	case 2:
+		return "write(#\"" + body + "\")"
+	default:
+		// an array literal over several lines with blank lines between the elements
+		return "zma = [1," + strings.Repeat("\n", rapid.IntRange(1, 3).Draw(t, "gap")) + "2,\n\n \"" + body + "\"]"
+	}
+}
+
 func genSep(t *rapid.T) string {
 	s := "\n"
 	for rapid.IntRange(0, 4).Draw(t, "sep") == 0 {
@@ -180,6 +202,9 @@ func c16Prop(rec *ev.Recorder, tb testing.TB) func(t *rapid.T) {
 		for _, s := range stmts {
 			if rapid.IntRange(0, 3).Draw(t, "tricky") == 0 {
 				c.Stmts = append(c.Stmts, rapid.SampledFrom(c16Tricky).Draw(t, "trickystmt"))
+			}
+			if rapid.IntRange(0, 5).Draw(t, "multiline") == 0 {
+				c.Stmts = append(c.Stmts, genMultiLine(t))
 			}
 			if rapid.IntRange(0, 5).Draw(t, "trail") == 0 && !strings.Contains(s, "\n") {
 				s += " ; trailing \" { ["
